@@ -82,7 +82,19 @@ pub fn path_case<Y: System>(sys: &Y, path: &[usize]) -> Value {
 }
 
 /// Breadth-first search to the fixed point (or the state cap). Deterministic for any thread count.
-pub fn bfs<Y: System>(sys: &Y, max_states: u64, deadline: &dyn Fn() -> bool) -> BfsResult {
+pub fn rss_gb() -> f64 {
+    std::fs::read_to_string("/proc/self/statm")
+        .ok()
+        .and_then(|s| s.split_whitespace().nth(1).and_then(|x| x.parse::<f64>().ok()))
+        .map(|pages| pages * 4096.0 / 1e9)
+        .unwrap_or(0.0)
+}
+
+pub fn max_rss_gb() -> f64 {
+    std::env::var("VERIF_MAX_RSS_GB").ok().and_then(|s| s.parse().ok()).unwrap_or(20.0)
+}
+
+pub fn bfs<Y: System>(sys: &Y, max_states: u64, deadline: &(dyn Fn() -> bool + Sync)) -> BfsResult {
     let mut seen: HashMap<Y::State, u32> = HashMap::new();
     let mut nodes: Vec<Node> = vec![Node { parent: 0, action: 0 }];
     let init = sys.initial();
@@ -114,6 +126,7 @@ pub fn bfs<Y: System>(sys: &Y, max_states: u64, deadline: &dyn Fn() -> bool) -> 
             outcomes: Histo,
         }
         let next_chunk = std::sync::atomic::AtomicUsize::new(0);
+        let abort = std::sync::atomic::AtomicBool::new(false);
         let seen_ref = &seen;
         let chunks_ref = &chunks;
         let mut outs: Vec<Option<Out<Y::State>>> = (0..chunks.len()).map(|_| None).collect();
@@ -128,6 +141,13 @@ pub fn bfs<Y: System>(sys: &Y, max_states: u64, deadline: &dyn Fn() -> bool) -> 
                             break;
                         }
                         let mut o = Out { cands: vec![], viols: vec![], transitions: 0, cut: 0, dead: 0, tags: 0, outcomes: Histo::default() };
+                        if abort.load(std::sync::atomic::Ordering::Relaxed) {
+                            mine.push((ci, o));
+                            continue;
+                        }
+                        if ci % 8 == 0 && (deadline() || rss_gb() > max_rss_gb()) {
+                            abort.store(true, std::sync::atomic::Ordering::Relaxed);
+                        }
                         for (id, st) in chunks_ref[ci].iter() {
                             for a in 0..nact {
                                 if !sys.enabled(st, a) {
@@ -164,6 +184,7 @@ pub fn bfs<Y: System>(sys: &Y, max_states: u64, deadline: &dyn Fn() -> bool) -> 
                 outs[ci] = Some(o);
             }
         }
+        let aborted = abort.load(std::sync::atomic::Ordering::Relaxed);
         let mut next_frontier: Vec<(u32, Y::State)> = vec![];
         let mut capped = false;
         for o in outs.into_iter().flatten() {
@@ -197,6 +218,10 @@ pub fn bfs<Y: System>(sys: &Y, max_states: u64, deadline: &dyn Fn() -> bool) -> 
                     }
                 }
             }
+        }
+        if aborted {
+            stats.capped = Some(format!("wall-clock or memory cap reached while expanding depth {} ({} GB resident); the level was not completed", depth, rss_gb()));
+            break;
         }
         if capped {
             stats.capped = Some(format!("state cap {} reached at depth {}", max_states, depth + 1));
